@@ -13,11 +13,29 @@ def outcomeStr : Outcome → String
 def errStr : Err → String
   | .notFound => "notFound" | .conflict => "conflict" | .invalid => "invalid" | .exists => "alreadyExists" | .other => "other"
 
-def cidOf : String → Option Cid
-  | "self" => some .self | "other" => some .other | _ => none
+def apiVersion (g v : String) : String := if g == "" then v else g ++ "/" ++ v
 
-def cidStr : Option Cid → String
-  | some .self => "self" | some .other => "other" | none => ""
+/-- canonical text of a spec.resourceRef: apiVersion|kind|name ("" = unset) -/
+def xrefStr : Option XRef → String
+  | some r => apiVersion r.group r.version ++ "|" ++ r.kind ++ "|" ++ r.name
+  | none => ""
+
+/-- canonical text of a spec.claimRef: apiVersion|kind|namespace|name[+uid] ("" = unset) -/
+def crefStr (r : Option CRef) (uid : Bool) : String :=
+  match r with
+  | some r => apiVersion r.group r.version ++ "|" ++ r.kind ++ "|" ++ r.ns ++ "|" ++ r.name ++ (if uid then "+uid" else "")
+  | none => ""
+
+def xrefOf (j : Json) : Option XRef :=
+  if str j "name" == "" then none else some ⟨str j "name", str j "group", str j "version", str j "kind"⟩
+
+def crefOf (j : Json) : Option CRef :=
+  if str j "name" == "" then none else some ⟨str j "name", str j "ns", str j "group", str j "version", str j "kind"⟩
+
+/-- the claim the harness reconciles, and the GroupKind of its XRs -/
+def meRef : CRef := ⟨"c", "ns", "example.org", "v1", "Thing"⟩
+
+def xrtOf (ver : String) : GVK := ⟨"example.org", if ver == "" then "v1" else ver, "XThing"⟩
 
 def envOf (j : Json) : EnvAct :=
   match str j "act" with
@@ -25,6 +43,7 @@ def envOf (j : Json) : EnvAct :=
   | "xrRemove" => .xrRemove (str j "name")
   | "xrDelete" => .xrDelete (str j "name")
   | "claimDelete" => .claimDelete
+  | "claimRetype" => .claimRetype ⟨str j "g", str j "v", str j "k"⟩
   | _ => .claimTouch
 
 /-- (verb, obj, name, sub, patch type) of a request, as the harness logs it -/
@@ -35,9 +54,9 @@ def reqDesc : Req → String × String × String × String × String
   | .updClaimStatus _ => ("update", "claim", "c", "status", "")
   | .upgradeXR n _ _ => ("patch", "xr", n, "", "json")
   | .deleteXR n _ => ("delete", "xr", n, "", "")
-  | .createXR n _ => ("create", "xr", n, "", "")
-  | .patchXR n _ => ("patch", "xr", n, "", "merge")
-  | .applyXR n => ("patch", "xr", n, "", "apply")
+  | .createXR n _ _ => ("create", "xr", n, "", "")
+  | .patchXR n _ _ => ("patch", "xr", n, "", "merge")
+  | .applyXR n _ => ("patch", "xr", n, "", "apply")
 
 def callJson (c : CallRec) : Json :=
   let (verb, obj, name, sub, pt) := reqDesc c.req
@@ -53,12 +72,12 @@ def callJson (c : CallRec) : Json :=
 
 def claimJson (s : St) : Json :=
   match s.claim with
-  | some c => Json.mkObj [("exists", .bool true), ("ref", .str (c.ref.getD "")), ("fin", .bool c.fin), ("deleting", .bool c.deleting)]
+  | some c => Json.mkObj [("exists", .bool true), ("ref", .str (xrefStr c.ref)), ("fin", .bool c.fin), ("deleting", .bool c.deleting)]
   | none => Json.mkObj [("exists", .bool false), ("ref", .str ""), ("fin", .bool false), ("deleting", .bool false)]
 
 def xrsJson (s : St) (names : List Name) : Json :=
   Json.arr (names.filterMap fun n => (s.xrs n).map fun x =>
-    Json.mkObj [("name", .str n), ("ref", .str (cidStr x.cref)), ("labeled", .bool x.labeled), ("fin", .bool x.fin),
+    Json.mkObj [("name", .str n), ("ref", .str (crefStr x.cref x.crefUid)), ("labeled", .bool x.labeled), ("fin", .bool x.fin),
       ("deleting", .bool x.deleting), ("status", .bool x.status)]).toArray
 
 def dedupSorted (l : List String) : List String :=
@@ -66,8 +85,8 @@ def dedupSorted (l : List String) : List String :=
 
 /-- model-side monitor: the three clauses of the property on the model's own state -/
 def propOk (s : St) (names : List Name) (initRefs : List Name) : Bool × String :=
-  let bound := names.filter fun n => match s.xrs n with | some x => x.cref == some .self | none => false
-  let hijack := s.trace.any fun e => match e with | .xrWrite _ true => true | _ => false
+  let bound := names.filter fun n => match s.xrs n with | some x => x.cref == some s.me | none => false
+  let hijack := s.trace.any fun e => match e with | .xrWrite _ (some r) => r != s.me | _ => false
   -- trace is newest first: every create must have an older ack (or an initial ref)
   let rec before : List Ev → Bool
     | [] => true
@@ -80,11 +99,12 @@ def propOk (s : St) (names : List Name) (initRefs : List Name) : Bool × String 
 
 def handler : Handler := fun scn =>
   let cj := obj scn "claim"
-  let ref0 := str cj "ref"
-  let claim0 : Claim := ⟨1, if ref0 == "" then none else some ref0, bool cj "fin", bool cj "deleting", bool cj "foreground"⟩
+  let xref0 := xrefOf (obj cj "ref")
+  let ref0 := (xref0.map (·.name)).getD ""
+  let claim0 : Claim := ⟨1, meRef, xref0, bool cj "fin", bool cj "deleting", bool cj "foreground"⟩
   let xrs0 := (arr scn "xrs").map fun j =>
-    (str j "name", (⟨2, cidOf (str j "ref"), bool j "labeled", bool j "fin", bool j "deleting", bool j "status", 0⟩ : XR))
-  let s0 : St := { claim := some claim0, hist := [claim0], xrs := fun n => xrs0.lookup n, xhist := fun n => [xrs0.lookup n], nextRv := 10, trace := [] }
+    (str j "name", (⟨2, crefOf (obj j "ref"), bool (obj j "ref") "uid", bool j "labeled", bool j "fin", bool j "deleting", bool j "status", 0⟩ : XR))
+  let s0 : St := { me := meRef, claim := some claim0, hist := [claim0], xrs := fun n => xrs0.lookup n, xhist := fun n => [xrs0.lookup n], nextRv := 10, trace := [] }
   let recs := arr scn "recs"
   let names := dedupSorted (xrs0.map (·.1) ++ strs scn "cands" ++ (recs.flatMap fun r => strs r "names") ++ (if ref0 == "" then [] else [ref0]))
   let initRefs := if ref0 == "" then [] else [ref0]
@@ -99,8 +119,8 @@ def handler : Handler := fun scn =>
     -- builds a map, so the last one wins
     let plan : Plan := fun k => ((faults.reverse.lookup k).getD .ok)
     let rd := obj rj "read"
-    let want : Option Name × Bool × Bool := (if str rd "ref" == "" then none else some (str rd "ref"), bool rd "fin", bool rd "deleting")
-    let isWant (c : Claim) : Bool := (c.ref, c.fin, c.deleting) == want
+    let want : String × Bool × Bool := (str rd "ref", bool rd "fin", bool rd "deleting")
+    let isWant (c : Claim) : Bool := (xrefStr c.ref, c.fin, c.deleting) == want
     let (pick, bad) : Option Nat × Option String :=
       if bool rd "found" && bool rd "stale" then
         match (s.hist.drop 1).findIdx? isWant with
@@ -118,20 +138,24 @@ def handler : Handler := fun scn =>
       if bool xj "stale" then
         let p : Option XR → Bool :=
           if bool xj "found" then
-            let want := (cidOf (str xj "ref"), bool xj "labeled", bool xj "fin", bool xj "deleting", bool xj "status", nat xj "gen")
+            let want := (str xj "ref", bool xj "labeled", bool xj "fin", bool xj "deleting", bool xj "status", nat xj "gen")
             fun ox => match ox with
-              | some x => (x.cref, x.labeled, x.fin, x.deleting, x.status, x.gen) == want
+              | some x => (crefStr x.cref x.crefUid, x.labeled, x.fin, x.deleting, x.status, x.gen) == want
               | none => false
           else fun ox => ox.isNone
-        -- the newest older state with that content in the right incarnation of the name:
-        -- exactly `absAfter` absences lie between it and the stored state
+        -- the older state with that content in the right incarnation of the name (exactly `absAfter`
+        -- absences lie between it and the stored state), skipping the `dupAfter` newer states of that
+        -- incarnation that have the same content
         let k := nat xj "absAfter"
-        let rec go : List (Option XR) → Nat → Option (Option XR)
-          | [], _ => none
-          | e :: rest, cnt => if p e && cnt == k then some e else go rest (cnt + (if e.isNone then 1 else 0))
-        some (siteOf occ, fun older => go older 0)
+        let d := nat xj "dupAfter"
+        let rec go : List (Option XR) → Nat → Nat → Option (Option XR)
+          | [], _, _ => none
+          | e :: rest, cnt, dup =>
+            if p e && cnt == k then (if dup == d then some e else go rest cnt (dup + 1))
+            else go rest (cnt + (if e.isNone then 1 else 0)) dup
+        some (siteOf occ, fun older => go older 0 0)
       else none)
-    let cfg : Cfg := { ssa := ssa, pick := pick, xpick := fun site => xsel.lookup site, cands := strs rj "names", up := up }
+    let cfg : Cfg := { ssa := ssa, xrt := xrtOf (str rj "xrv"), pick := pick, xpick := fun site => xsel.lookup site, cands := strs rj "names", up := up }
     let (s', calls, res) := runRec plan envAt 0 (reconcile cfg) s
     let resStr := match res with | some .ok => "ok" | some .requeue => "requeue" | some .err => "err" | none => "crashed"
     let o := Json.mkObj [("calls", Json.arr (calls.map callJson).toArray), ("res", .str resStr),
